@@ -411,6 +411,7 @@ static int do_next(cron_expr* expr, struct tm* calendar, unsigned int dot) {
     unsigned int update_day_of_month = 0;
     unsigned int month = 0;
     unsigned int update_month = 0;
+    int year = 0;
 
     resets = (int*) cron_malloc(CRON_CF_ARR_LEN * sizeof(int));
     if (!resets) goto return_result;
@@ -450,9 +451,12 @@ static int do_next(cron_expr* expr, struct tm* calendar, unsigned int dot) {
 
     day_of_week = calendar->tm_wday;
     day_of_month = calendar->tm_mday;
+    month = calendar->tm_mon;
+    year = calendar->tm_year;
     update_day_of_month = find_next_day(calendar, expr->days_of_month, day_of_month, expr->days_of_week, day_of_week, resets, &res);
     if (0 != res) goto return_result;
-    if (day_of_month == update_day_of_month) {
+    /* the same day number in a later month is another day: the time of day was reset on the way and has to be searched again */
+    if (day_of_month == update_day_of_month && month == (unsigned int) calendar->tm_mon && year == calendar->tm_year) {
         push_to_fields_arr(resets, CRON_CF_DAY_OF_MONTH);
     } else {
         res = do_next(expr, calendar, dot);
